@@ -224,7 +224,7 @@ func genMsg(t *rapid.T, c *chainCtx, now uint64) WireMsg {
 		copy(s[:], rapid.SliceOfN(rapid.Byte(), 65, 65).Draw(t, "sigBytes"))
 		return s
 	}
-	code := rapid.SampledFrom([]uint32{8, 6, 8, 6, 9, 0x0b, 0x0d, 3, 5, 7, 0x0a, 0x0c, 0x0e, 4, 2, 0, 1, 0x0f, 0x1f, 0x20, 0xffffffff}).Draw(t, "code")
+	code := rapid.SampledFrom([]uint32{8, 6, 8, 8, 6, 9, 0x0b, 0x0d, 3, 5, 7, 0x0a, 0x0c, 0x0e, 4, 2, 0, 1, 0x0f, 0x1f, 0x20, 0xffffffff}).Draw(t, "code")
 	var valid []byte
 	note := ""
 	switch p2p.MsgCode(code) {
@@ -283,7 +283,7 @@ func genMsg(t *rapid.T, c *chainCtx, now uint64) WireMsg {
 		note = strings.Join(names, " ")
 	case p2p.BlocksMsg:
 		var b *types.Block
-		switch rapid.IntRange(0, 3).Draw(t, "blockKind") {
+		switch (rapid.IntRange(0, 4).Draw(t, "blockKind") + 4) % 5 { // (the absurd-header kind first: rapid favours small draws)
 		case 0, 1: // the valid next block (to be damaged below)
 			b = sim.CloneBlock(c.x)
 			note = "X"
@@ -311,13 +311,32 @@ func genMsg(t *rapid.T, c *chainCtx, now uint64) WireMsg {
 			b.Header.ParentHash = anyHash()
 			b.Header.Height = anyHeight()
 			note = "orphan"
+		case 4: // the next block with an absurd number in a scalar header field, signed by its deputy
+			b = sim.CloneBlock(c.x)
+			switch rapid.IntRange(0, 3).Draw(t, "absurdField") {
+			case 0:
+				b.Header.Time = rapid.SampledFrom([]uint32{0, 1, 9999999, 10000000, ^uint32(0)}).Draw(t, "absurdTime")
+			case 1:
+				b.Header.GasLimit = rapid.SampledFrom([]uint64{0, 1, ^uint64(0)}).Draw(t, "absurdGasLimit")
+			case 2:
+				b.Header.GasUsed = rapid.SampledFrom([]uint64{0, ^uint64(0)}).Draw(t, "absurdGasUsed")
+			default:
+				b.Header.Height = rapid.SampledFrom([]uint32{0, ^uint32(0)}).Draw(t, "absurdHeight")
+			}
+			if dep := w.DeputyByMiner(c.x.MinerAddress()); dep != nil {
+				sim.SignBlockAs(b, dep)
+			}
+			note = "X-absurd-header"
 		}
 		bs := types.Blocks{b}
 		valid = enc(&bs)
 	default:
 		valid = rapid.SliceOfN(rapid.Byte(), 0, 40).Draw(t, "otherPayload")
 	}
-	payload, how := mutatePayload(t, valid)
+	payload, how := valid, "as-built"
+	if !strings.HasPrefix(note, "X-absurd-header") {
+		payload, how = mutatePayload(t, valid)
+	}
 	// a block whose fields were damaged is signed again by the deputy in turn when it still decodes: the checks behind the signature are the interesting ones
 	if p2p.MsgCode(code) == p2p.BlocksMsg && how != "valid" && rapid.Bool().Draw(t, "resign") {
 		var bs types.Blocks
@@ -374,6 +393,42 @@ func equivocationScript(t *rapid.T, c *chainCtx) []WireMsg {
 		order = append(order, m)
 	}
 	return order
+}
+
+// absurdHeaderScript: the next block with absurd numbers in its scalar header fields, each signed by the deputy in turn (the checks
+// behind the signature see them).
+func absurdHeaderScript(t *rapid.T, c *chainCtx) []WireMsg {
+	dep := c.s.W.DeputyByMiner(c.x.MinerAddress())
+	var res []WireMsg
+	for i, n := 0, rapid.IntRange(1, 3).Draw(t, "absurdBlocks"); i < n; i++ {
+		b := sim.CloneBlock(c.x)
+		what := ""
+		switch rapid.IntRange(0, 4).Draw(t, "absurdField") {
+		case 0, 1:
+			b.Header.Time = rapid.SampledFrom([]uint32{0, 1, 9999999, 10000000, c.head.Time() - 1, ^uint32(0)}).Draw(t, "absurdTime")
+			what = fmt.Sprintf("time=%d", b.Header.Time)
+		case 2:
+			b.Header.GasLimit = rapid.SampledFrom([]uint64{0, 1, ^uint64(0)}).Draw(t, "absurdGasLimit")
+			what = fmt.Sprintf("gasLimit=%d", b.Header.GasLimit)
+		case 3:
+			b.Header.GasUsed = rapid.SampledFrom([]uint64{0, ^uint64(0)}).Draw(t, "absurdGasUsed")
+			what = fmt.Sprintf("gasUsed=%d", b.Header.GasUsed)
+		default:
+			b.Header.Height = rapid.SampledFrom([]uint32{0, ^uint32(0), c.x.Height() + 1}).Draw(t, "absurdHeight")
+			what = fmt.Sprintf("height=%d", b.Header.Height)
+		}
+		if rapid.Bool().Draw(t, "noTxs") { // without transactions the block is not stopped at their lifetime window
+			b.Txs = nil
+			b.Header.TxRoot = b.Txs.MerkleRootSha()
+			what += " no-txs"
+		}
+		if dep != nil {
+			sim.SignBlockAs(b, dep)
+		}
+		bs := types.Blocks{b}
+		res = append(res, WireMsg{Code: uint32(p2p.BlocksMsg), Payload: enc(&bs), Note: "X-absurd-header " + what})
+	}
+	return res
 }
 
 // spins: a block request whose range makes respBlocks loop for minutes (CPU, not memory: outside the statement; excluded to keep the harness usable)
@@ -543,8 +598,11 @@ func TestC15Messages(t *testing.T) {
 		now := uint64(time.Now().Unix())
 		excluded := 0
 		var scripted []WireMsg
-		if rapid.IntRange(0, 3).Draw(rt, "equivocation") == 0 {
+		switch rapid.IntRange(0, 4).Draw(rt, "script") {
+		case 0:
 			scripted = equivocationScript(rt, ctx)
+		case 1:
+			scripted = absurdHeaderScript(rt, ctx)
 		}
 		for i, n := 0, rapid.IntRange(1, 5).Draw(rt, "nmsgs"); i < n || len(scripted) > 0; i++ {
 			var m WireMsg
